@@ -1,7 +1,7 @@
 (** Tools for the RFC 3526 prime theorems: the integer part of a real pinned by two strict bounds, and the
     reduction "table prime = formula" to "floor(2^k pi) = the integer read off the table prime". *)
 From Coq Require Import ZArith Reals List Lia Lra.
-From Keys Require Import Gen.ModpGroups Rfc3526.
+From Keys Require Import Gen.ModpGroups ModpTable Rfc3526Formula.
 Import ListNotations.
 Open Scope Z_scope.
 
@@ -12,12 +12,6 @@ Proof.
   { apply tech_up; [exact Hhi|]. rewrite plus_IZR. simpl. lra. }
   rewrite <- H. lia.
 Qed.
-
-(** MODPDH._group_dict[g] as (len(hex), int(hex, 16)); (0, 0) stands for KeyError *)
-Definition modp_entry (g : Z) : Z * Z :=
-  match find (fun e => Z.eqb (fst e) g) modp_group_dict with Some (_, e) => e | None => (0, 0) end.
-Definition modp_prime (g : Z) : Z := snd (modp_entry g).
-Definition modp_hexlen (g : Z) : Z := fst (modp_entry g).
 
 (** the value floor(2^(n-130) pi) must have for [p] to be the RFC 3526 prime of [n] bits with constant [c] *)
 Definition floor_of (p n c : Z) : Z := (p - 2 ^ n + 2 ^ (n - 64) + 1) / 2 ^ 64 - c.
